@@ -15,19 +15,26 @@
                                 piece before the tail is reset afterwards
      track_match                PatternMatches::add(.., replace_if_longer = greedy)
 
-   The pieces are literals (LiteralChainHead / LiteralChainTail: hex patterns
-   with jumps over the chaining threshold, regexps like /abc.*def.*ghi/s), so a
-   piece match is decided by Pipeline.verify_literal.  Sub-patterns and atoms are
-   the REAL ones (hook Rules::verif_c01_dump) in K stream (e).
+   The bookkeeping consumes EVENTS (sub-pattern id, start, end): the verified
+   matches of the pieces in the order handle_sub_pattern_match receives them.
+   For literal pieces (LiteralChainHead / LiteralChainTail) the events are
+   derived from the atom hits by Pipeline.handle_atom_match; for regexp pieces
+   (RegexpChainHead / RegexpChainTail) they are whatever verify_regexp yields --
+   per atom hit ONE end (the first the forward code reports for a lazy pattern,
+   the last for a greedy one) and every start of the backward code.  In K stream
+   (e) sub-patterns, atoms, hits and events are the REAL ones (hooks
+   Rules::verif_c01_dump, verif_c01_trace_take).  `one_end_events` is the abstract
+   reading "one end per start" used in ChainRunProofs.v.
    Definitions only. *)
 From Coq Require Import List NArith Bool Arith.
-From YV Require Import Pat.Syntax Pat.Sem Pat.Modifiers Pat.MatchList Pat.Atoms Pat.Pipeline.
+From YV Require Import Pat.Syntax Pat.Sem Pat.Matcher Pat.Modifiers Pat.MatchList Pat.Atoms Pat.Pipeline Pat.Chain.
 Import ListNotations.
 
 Inductive cgap := GBounded (mn mx : nat) | GUnbounded (mn : nat).
 
 (* a chain piece: SubPattern::LiteralChainHead (link = None) or LiteralChainTail *)
 Record cpiece := mkCP {
+  cp_regexp : bool;                     (* Regexp* instead of Literal*: cp_lit is not used *)
   cp_lit : bytes;
   cp_flags : spflags;
   cp_last : bool;                       (* SubPatternFlags::LastInChain *)
@@ -152,52 +159,107 @@ Definition handle_piece_match (pieces : list cpiece) (id : nat) (s e : nat)
       end
   end.
 
-(* handle_atom_match for an atom of a chain piece found at match_start *)
-Definition handle_chain_hit (pieces : list cpiece) (atoms : list atom) (d : bytes) (h : hit)
-                            (sm : ustate * match_list) : ustate * match_list :=
+(* an event: sub-pattern id, start, end of a verified piece match *)
+Definition event := (nat * nat * nat)%type.
+
+(* the matches of a chained pattern, the piece matches arriving in the given order *)
+Definition run_chain_state (pieces : list cpiece) (evs : list event) : ustate * match_list :=
+  fold_left (fun sm ev => let '(id, s, e) := ev in handle_piece_match pieces id s e sm) evs ([], []).
+Definition run_chain (pieces : list cpiece) (evs : list event) : match_list :=
+  snd (run_chain_state pieces evs).
+
+(* the sub-pattern a literal piece is, for Pipeline.handle_atom_match *)
+Definition piece_sp (p : cpiece) : subpat := mkSP (KLiteral (cp_lit p) None) (cp_flags p).
+
+(* handle_atom_match for an atom of a LITERAL piece found at match_start: the
+   Literal* arm is the one of SubPattern::Literal (exact-atom shortcut with the
+   fullword check, else verify_literal) *)
+Definition hit_event (pieces : list cpiece) (atoms : list atom) (d : bytes) (h : hit) : list event :=
   match nth_error atoms (fst h) with
-  | None => sm
+  | None => []
   | Some a =>
       match nth_error pieces (a_sp a) with
-      | None => sm
+      | None => []
       | Some p =>
-          if Nat.ltb (snd h) (a_bt a) then sm else
-          let pos := (snd h - a_bt a)%nat in
-          if a_exact a then
-            let e := (pos + length (a_bytes a))%nat in
-            if verify_full_word (cp_flags p) 0 d pos e then handle_piece_match pieces (a_sp a) pos e sm else sm
-          else
-            if verify_literal (cp_lit p) d pos (cp_flags p)
-            then handle_piece_match pieces (a_sp a) pos (pos + length (cp_lit p))%nat sm else sm
+          if cp_regexp p then [] else
+          match handle_atom_match (piece_sp p) a (snd h) d with
+          | Some (s, e, _) => [(a_sp a, s, e)]
+          | None => []
+          end
       end
   end.
 
-(* the matches of a chained pattern, the hits being processed in the given order *)
+Definition hit_events (pieces : list cpiece) (atoms : list atom) (hits : list hit) (d : bytes) : list event :=
+  flat_map (hit_event pieces atoms d) hits.
+
+(* a chain of literal pieces, the hits being processed in the given order *)
 Definition scan_chain (pieces : list cpiece) (atoms : list atom) (hits : list hit) (d : bytes) : match_list :=
-  snd (fold_left (fun sm h => handle_chain_hit pieces atoms d h sm) hits ([], [])).
+  run_chain pieces (hit_events pieces atoms hits d).
 
-(* ---- what a confirmed chain is (for ChainRunProofs) ----------------------- *)
-(* piece id matches d at s..e *)
-Definition piece_match (pieces : list cpiece) (d : bytes) (id s e : nat) : bool :=
-  match nth_error pieces id with
-  | Some p => Nat.eqb e (s + length (cp_lit p)) && verify_literal (cp_lit p) d s (cp_flags p)
-  | None => false
+(* ---- the abstract piece matcher ------------------------------------------- *)
+(* One end per (piece, start): the shortest the reference matcher finds for a
+   lazy pattern (and for hex patterns), the longest for a greedy one.  Events in
+   the order of their END offset, then piece, then start: the order of an
+   automaton that consumes the data from left to right. *)
+Fixpoint list_min (l : list nat) : option nat :=
+  match l with
+  | [] => None
+  | x :: t => match list_min t with Some m => Some (Nat.min x m) | None => Some x end
   end.
+Fixpoint list_max (l : list nat) : option nat :=
+  match l with
+  | [] => None
+  | x :: t => match list_max t with Some m => Some (Nat.max x m) | None => Some x end
+  end.
+Definition chosen_end (nc greedy : bool) (r : re) (d : bytes) (s : nat) : option nat :=
+  if greedy then list_max (ends nc d r s) else list_min (ends nc d r s).
 
-(* a path of piece matches from piece id at s..e up to the end of the chain,
-   every gap respected: the matches (id, s, e), (next, ...), ..., tail *)
-Fixpoint chain_path (pieces : list cpiece) (d : bytes) (path : list (nat * nat * nat)) : bool :=
-  match path with
-  | [] => false
-  | [(id, s, e)] => piece_match pieces d id s e &&
-                    match nth_error pieces id with Some p => cp_last p | None => false end
-  | (id, s, e) :: (((id', s', e') :: _) as rest) =>
-      piece_match pieces d id s e &&
-      match nth_error pieces id' with
-      | Some p' => match cp_link p' with
-                   | Some (to, g) => Nat.eqb to id && in_gap g e s'
-                   | None => false
-                   end
-      | None => false
-      end && chain_path pieces d rest
-  end.
+(* the events in the order of their end offset (then piece, then start) *)
+Definition by_end (n : nat) (evs : list event) : list event :=
+  flat_map (fun e => filter (fun ev => Nat.eqb (snd ev) e) evs) (seq 0 n).
+
+Definition one_end_events (nc greedy : bool) (rs : list re) (d : bytes) : list event :=
+  let n := S (length d) in
+  by_end n
+    (flat_map (fun id =>
+       match nth_error rs id with
+       | None => []
+       | Some r => flat_map (fun s => match chosen_end nc greedy r d s with
+                                      | Some e => [(id, s, e)]
+                                      | None => []
+                                      end) (seq 0 n)
+       end) (seq 0 (length rs))).
+
+(* every end the reference matcher finds: what a complete piece matcher yields *)
+Definition all_end_events (nc : bool) (rs : list re) (d : bytes) : list event :=
+  let n := S (length d) in
+  by_end n
+    (flat_map (fun id =>
+       match nth_error rs id with
+       | None => []
+       | Some r => flat_map (fun s => map (fun e => (id, s, e)) (ends nc d r s)) (seq 0 n)
+       end) (seq 0 (length rs))).
+
+(* the pieces of a chain (head, [(gap, piece)]) as Chain.split_at_large_gaps gives it:
+   piece i+1 is chained to piece i, the last one has LastInChain *)
+Definition cgap_of (g : gap) : cgap :=
+  match g_max g with Some m => GBounded (g_min g) m | None => GUnbounded (g_min g) end.
+
+Definition no_flags : spflags := mkF false false false false.
+
+Definition pieces_of_chain (greedy : bool) (c : re * list (gap * re)) : list cpiece :=
+  let n := length (snd c) in
+  mkCP true [] no_flags false greedy None ::
+  map (fun igp => mkCP true [] no_flags (Nat.eqb (S (fst igp)) n) greedy (Some (fst igp, cgap_of (fst (snd igp)))))
+      (combine (seq 0 n) (snd c)).
+
+Definition chain_res (c : re * list (gap * re)) : list re := fst c :: map snd (snd c).
+
+(* a chained pattern end to end, with the abstract piece matcher; w: the wide form
+   (the pieces are widened, the gaps stay what they are: byte distances) *)
+Definition scan_chain_abs (nc greedy w : bool) (c : re * list (gap * re)) (d : bytes) : match_list :=
+  run_chain (pieces_of_chain greedy c) (one_end_events nc greedy (map (vre w) (chain_res c)) d).
+
+(* the same bookkeeping fed with every end of every piece *)
+Definition scan_chain_all_ends (nc greedy w : bool) (c : re * list (gap * re)) (d : bytes) : match_list :=
+  run_chain (pieces_of_chain greedy c) (all_end_events nc (map (vre w) (chain_res c)) d).
